@@ -342,6 +342,9 @@ ENUM_SPECS = {
     "quick": [
         "E 7 01 5d0,61,28,29,2067,2069",            # R L ( ) RLI PDI : brackets x isolates (BD13, BD16, N0-N2)
         "E 6 01 627,61,31,24,2066,2069,5d0",        # AL L EN ET LRI PDI R : weak rules across isolating run sequences
+        # token level: whole matched isolates as single letters of the alphabet (sequences of several level runs)
+        "E 5 01 627,61,5d0,31,24,2066+61+2069,2066+5d0+2069,2066+31+2069,2066+2069",
+        "E 7 01 61,5d0,2066+61+2069,28,29",
     ],
     "thorough": [
         "E 8 01 5d0,61,28,29,2067,2069",
@@ -349,6 +352,8 @@ ENUM_SPECS = {
         "E 7 01 627,61,31,24,2066,2069,5d0",
         "E 7 01 5d0,31,661,2b,2c,24,300,ad",        # R EN AN ES CS ET NSM BN : W1-W7 dense
         "E 7 0 61,5d0,202b,202d,202c,2066,2069,21", # L R RLE LRO PDF LRI PDI ON : X1-X8 with X9 removal
+        "E 6 01 627,61,5d0,31,24,2066+61+2069,2066+5d0+2069,2066+31+2069,2066+2069,2067+61+2069",
+        "E 8 01 61,5d0,2066+61+2069,2067+5d0+2069,28,29",
     ],
 }
 
